@@ -912,6 +912,87 @@ func (c *Ctx) truncateCallers(fi *load.FuncInfo, revs []*ast.Ident) {
 		}
 	}
 	c.Floor("C13.1-truncation-call-sites", n, 1)
+	c.successOnlyAfterTruncation(fi)
+}
+
+// successOnlyAfterTruncation: "after a successful reconcile at most revisionHistoryLimit unused revisions remain":
+// in every function between the reconcile entry and the truncation, no return is reachable without passing the
+// call of the truncation (or of the function that leads to it) unless it returns a non-nil error.
+func (c *Ctx) successOnlyAfterTruncation(trunc *load.FuncInfo) {
+	const rule = "C13.2-success-only-after-the-truncation"
+	target := trunc
+	nF := 0
+	for depth := 0; depth < 4 && target != nil; depth++ {
+		var next *load.FuncInfo
+		for _, caller := range c.P.Funcs() {
+			if caller.Pkg.PkgPath != load.CtrlPkg || caller == target {
+				continue
+			}
+			info := caller.Pkg.TypesInfo
+			var stops []ast.Node
+			for _, call := range callsIn(caller.Decl.Body, true) {
+				if gf.StaticCallee(info, call) == target.Obj {
+					if st := stmtOf(caller.Decl.Body, call); st != nil {
+						stops = append(stops, st)
+					}
+				}
+			}
+			if len(stops) == 0 {
+				continue
+			}
+			nF++
+			next = caller
+			fn, _ := c.Analysis(caller)
+			aU := fn.FromUntil(caller.Decl.Body.List[0], gf.TrueState(), stops...)
+			nR := 0
+			judge := func(ret ast.Node, last ast.Expr) {
+				for _, s := range stops {
+					if s == ret {
+						return
+					}
+				}
+				st := aU.StateBefore(ret)
+				if !st.Reachable() {
+					return
+				}
+				nR++
+				name := fmt.Sprintf("%s: return #%d before %s", caller.Obj.Name(), nR, target.Obj.Name())
+				switch {
+				case last == nil:
+					c.Bad(rule, name, ret.Pos(), "the function can end without the history having been truncated")
+				case isErrorCtor(info, last):
+					c.OK(rule, name, ret.Pos(), "an error built on the spot")
+				default:
+					if g, _ := st.Implies(gf.FNotNil(fn.Term(last))); g && !isNilExpr(info, last) {
+						c.OK(rule, name, ret.Pos(), "returns a non-nil error")
+					} else {
+						c.Bad(rule, name, ret.Pos(), "the reconcile can report success without having truncated the history: unused revisions beyond revisionHistoryLimit then remain after a successful reconcile (and keep remaining while nothing else changes)")
+					}
+				}
+			}
+			ownNodes(caller.Decl.Body, func(x ast.Node) {
+				ret, ok := x.(*ast.ReturnStmt)
+				if !ok {
+					return
+				}
+				if len(ret.Results) == 0 {
+					judge(ret, nil)
+					return
+				}
+				last := ret.Results[len(ret.Results)-1]
+				if !isErrorType(info.TypeOf(last)) && !isNilExpr(info, last) {
+					judge(ret, nil)
+					return
+				}
+				judge(ret, last)
+			})
+			if ir := fn.ImplicitReturn(); ir != nil {
+				judge(ir, nil)
+			}
+		}
+		target = next
+	}
+	c.Floor("C13.2-functions-leading-to-the-truncation", nF, 1)
 }
 
 // assignedBetweenCalls: obj is assigned by something other than a call to src before call.
